@@ -296,6 +296,12 @@ def run(run_, pkg, tier):
         key = "C08-c/BaseEdge.calc_chi2/n=%d" % n
         if run_.wants(key):
             tasks.append((key, "C08-c-linear-in-information", chi2_obligation("BaseEdge", n), "%s:%d" % (cfn._gs_module, cfn.lineno)))
+    from .c02 import graph_parallel_sum_obligation
+    cgfn = pkg.method("Graph", "calc_chi2")
+    for k in (2, 3):
+        key = "C08-c/Graph.calc_chi2/parallel-edges=%d" % k
+        if run_.wants(key):
+            tasks.append((key, "C08-c-edge-splitting", graph_parallel_sum_obligation(k), "%s:%d" % (cgfn._gs_module, cgfn.lineno)))
     gfn = pkg.method("Graph", "_calc_chi2_gradient_hessian")
     perms = [Scenario("order-reversed", ["PoseR2", "PoseSE2", "PoseR2"][::-1], [tuple(2 - k for k in e) for e in BASE_E], fixed=[2]),
              [s for s in SCENARIOS if s.name == "parallel-only"][0], [s for s in SCENARIOS if s.name == "parallel-free"][0],
